@@ -277,3 +277,31 @@ def _inline_bool_names(fn: ast.FunctionDef, e: ast.expr, at: Optional[Node], dep
         return x
 
     return inline(e)
+
+
+def errstate_underflow_sites(fn_node: ast.AST):
+    """np.errstate(...) / np.seterr(...) calls that turn floating-point *underflow* into an exception
+    (all="raise" or under="raise").  Underflow to zero / subnormals is benign and depends on the absolute
+    scale of the data; raising on it makes the outcome depend on that scale and on which other rows share
+    the batch."""
+    out = []
+    for c in ast.walk(fn_node):
+        if isinstance(c, ast.Call) and dotted_name(c.func).split(".")[-1] in ("errstate", "seterr"):
+            kws = {k.arg: k.value for k in c.keywords if k.arg}
+            for name in ("all", "under"):
+                v = kws.get(name)
+                if isinstance(v, ast.Constant) and v.value == "raise" and not (name == "all" and isinstance(kws.get("under"), ast.Constant) and kws["under"].value != "raise"):
+                    out.append(c)
+                    break
+    return out
+
+
+def dotted_name(e: ast.AST) -> str:
+    parts = []
+    while isinstance(e, ast.Attribute):
+        parts.append(e.attr)
+        e = e.value
+    if isinstance(e, ast.Name):
+        parts.append(e.id)
+        return ".".join(reversed(parts))
+    return ""
